@@ -175,6 +175,7 @@ def differing_lines(a_path, b_path, limit=40):
 
 
 REORDERED = '\0same lines in a different order'
+MAX_LINE_FEATURES_PER_CONFIG = 6
 MAX_LINE_FEATURES_PER_FILE = 3      # a reordering or a shifted block differs in hundreds of lines: name the first few classes only
 
 
@@ -305,10 +306,11 @@ def run_item(g, it):
             report(cfg, it.fileset_feature or 'output file set', ','.join(classes), 'set of output paths differs (%s)' % ', '.join(classes),
                    'only in base run: %s; only in %s run: %s' % (only_base[:6], cfg['name'], only_now[:6]), now_path)
         ndiag = 0
+        line_feats = set()    # unclassified line classes named under this configuration (bounded: a broken tree differs everywhere)
         for p in sorted(base_tree):
             if p in t and t[p] != base_tree[p]:
                 fc = file_class(tool, p)
-                if ndiag >= 12:      # enough files diagnosed line by line; the rest only by class
+                if ndiag >= 400:     # enough files diagnosed line by line; the rest only by class
                     report(cfg, 'line: (not diagnosed)', fc, 'bytes differ in ' + fc, p, now_path)
                     continue
                 ndiag += 1
@@ -326,6 +328,11 @@ def run_item(g, it):
                     if feat in seen_f:
                         continue
                     seen_f.add(feat)
+                    if feat.startswith('line:'):
+                        if feat not in line_feats and len(line_feats) >= MAX_LINE_FEATURES_PER_CONFIG:
+                            res['unlisted'] = res.get('unlisted', 0) + 1
+                            continue
+                        line_feats.add(feat)
                     report(cfg, feat, fc, 'bytes differ in ' + fc, '%s: %r (base run) vs %r (%s run)' % (p, base, now, cfg['name']), now_path)
     return res
 
@@ -429,6 +436,7 @@ def main(chk):
         chk.count('files_hashed', res['files'])
         chk.count('tool_runs:' + it.tool, res['runs'])
         chk.count('differences_already_explained_by_repeated_run', res.get('subsumed', 0))
+        chk.count('further_line_classes_not_listed', res.get('unlisted', 0))
         for c in res['configs']:
             chk.tag('%s x %s' % (it.tool, c))
         for tname in res['timeouts']:
